@@ -515,6 +515,9 @@ struct Excl {
     subscription_roots: bool,
     duplicate_input_fields: bool,
     non_object_for_input: bool,
+    string_for_enum: bool,
+    variable_directives: bool,
+    non_null_variables: bool,
     /// probe streams: the one way an input object literal is broken (see `wrong_literal`)
     force_input_kind: Option<u8>,
 }
@@ -567,7 +570,13 @@ fn wrong_literal(m: &M<'_>, ty: &Ty, cur: &Val, s: &mut dyn Src) -> Option<Val> 
                 _ => {
                     let td = sch.ty(n)?;
                     match td.kind {
-                        Kind::Enum => pick(s, vec![Val::Str(td.values[0].name.clone()), Val::Enum("NOPE_9".into()), Val::Int("0".into()), Val::Bool(true), one(Val::Enum("NOPE_9".into()))]),
+                        Kind::Enum => {
+                            let mut xs = vec![Val::Enum("NOPE_9".into()), Val::Int("0".into()), Val::Bool(true), one(Val::Enum("NOPE_9".into())), Val::Str("NOPE_9".into())];
+                            if !m.excl.string_for_enum {
+                                xs.push(Val::Str(td.values[s.choose(td.values.len())].name.clone()));
+                            }
+                            pick(s, xs)
+                        }
                         Kind::Input => {
                             let base = match cur {
                                 Val::Obj(f) => f.clone(),
@@ -700,7 +709,8 @@ fn op_unknown_type(m: &mut M<'_>, s: &mut dyn Src) -> bool {
 
 fn op_unknown_directive(m: &mut M<'_>, s: &mut dyn Src) -> bool {
     let sch = m.sch;
-    mutate_nth(&mut m.doc, sch, s, &|x| matches!(x, Site::Dirs { .. }), &mut |x, s| {
+    let no_vardefs = m.excl.variable_directives;
+    mutate_nth(&mut m.doc, sch, s, &|x| matches!(x, Site::Dirs { location, .. } if !(no_vardefs && *location == "VARIABLE_DEFINITION")), &mut |x, s| {
         if let Site::Dirs { ds, .. } = x {
             let mut d = Directive::new("zz9", vec![]);
             if s.bool() {
@@ -1093,7 +1103,8 @@ fn op_leaf_selection(m: &mut M<'_>, s: &mut dyn Src) -> bool {
 
 fn op_misplaced_directive(m: &mut M<'_>, s: &mut dyn Src) -> bool {
     let sch = m.sch;
-    mutate_nth(&mut m.doc, sch, s, &|x| matches!(x, Site::Dirs { .. }), &mut |x, s| {
+    let no_vardefs = m.excl.variable_directives;
+    mutate_nth(&mut m.doc, sch, s, &|x| matches!(x, Site::Dirs { location, .. } if !(no_vardefs && *location == "VARIABLE_DEFINITION")), &mut |x, s| {
         if let Site::Dirs { ds, location } = x {
             let executable = ["FIELD", "INLINE_FRAGMENT", "FRAGMENT_SPREAD"].contains(&location);
             let d = if executable {
@@ -1267,12 +1278,14 @@ fn op_variable_values(m: &mut M<'_>, s: &mut dyn Src) -> bool {
         return false;
     }
     let vd = &vars[s.choose(vars.len())];
-    if vd.ty.ty.is_nn() && vd.default.is_none() && s.chance(1, 3) {
+    if vd.ty.ty.is_nn() && vd.default.is_none() && !m.excl.non_null_variables && s.chance(1, 3) {
         // a required variable is not provided
         m.vars.shift_remove(&vd.name.s);
         return true;
     }
-    match wrong_runtime(sch, &vd.ty.ty, s) {
+    // with C09-F8 open, a top-level null for a non-null variable is left to the probe stream
+    let ty = if m.excl.non_null_variables { vd.ty.ty.nullable().clone() } else { vd.ty.ty.clone() };
+    match wrong_runtime(sch, &ty, s) {
         Some(w) => {
             m.vars.insert(vd.name.s.clone(), w);
             true
@@ -1566,6 +1579,10 @@ fn all_quirks(open: &[(String, Quirks)]) -> Quirks {
         q.no_subscription_root_count |= x.no_subscription_root_count;
         q.last_duplicate_input_field_wins |= x.last_duplicate_input_field_wins;
         q.non_object_for_input_object_accepted |= x.non_object_for_input_object_accepted;
+        q.string_literal_for_enum_accepted |= x.string_literal_for_enum_accepted;
+        q.variable_directives_unchecked |= x.variable_directives_unchecked;
+        q.non_null_variables_not_enforced |= x.non_null_variables_not_enforced;
+        q.unsupplied_variable_disables_argument_check |= x.unsupplied_variable_disables_argument_check;
     }
     q
 }
@@ -1868,12 +1885,16 @@ pub fn run(ctx: &mut Ctx) {
         return;
     }
 
-    let findings: [(&str, Quirks); 5] = [
+    let findings: [(&str, Quirks); 9] = [
         ("C09-F1", Quirks { no_variable_usage_check: true, ..Quirks::default() }),
         ("C09-F2", Quirks { merge_same_condition_only: true, ..Quirks::default() }),
         ("C09-F3", Quirks { no_subscription_root_count: true, ..Quirks::default() }),
         ("C09-F4", Quirks { last_duplicate_input_field_wins: true, ..Quirks::default() }),
         ("C09-F5", Quirks { non_object_for_input_object_accepted: true, ..Quirks::default() }),
+        ("C09-F6", Quirks { string_literal_for_enum_accepted: true, ..Quirks::default() }),
+        ("C09-F7", Quirks { variable_directives_unchecked: true, ..Quirks::default() }),
+        ("C09-F8", Quirks { non_null_variables_not_enforced: true, ..Quirks::default() }),
+        ("C09-F9", Quirks { unsupplied_variable_disables_argument_check: true, ..Quirks::default() }),
     ];
     let open: Vec<(String, Quirks)> = findings.iter().filter(|(id, _)| ctx.open(id)).map(|(id, q)| (id.to_string(), *q)).collect();
     let is_open = |id: &str| open.iter().any(|(i, _)| i == id);
